@@ -185,7 +185,11 @@ func (g *G) govMsg(v *view) script.Msg {
 	} else if g.chance(5) {
 		denom = "atoken" // a legal, if unusual, change
 	}
-	switch g.rng.Intn(4) {
+	which := g.rng.Intn(4)
+	if g.w.quorum {
+		which, valid, auth, denom = 0, valid || g.chance(60), "Mgov", "nund"
+	}
+	switch which {
 	case 0:
 		n := 1 + g.rng.Intn(minInt(g.n, 5))
 		var signers []string
@@ -193,6 +197,9 @@ func (g *G) govMsg(v *view) script.Msg {
 			signers = append(signers, g.acct(i))
 		}
 		min, limit := u(uint64(1+g.rng.Intn(n))), g.pick("30", "30", "5", "1", "100000")
+		if g.w.quorum {
+			limit = g.pick("100000", "100000", "30")
+		}
 		if !valid {
 			switch g.rng.Intn(4) {
 			case 0:
